@@ -56,7 +56,7 @@ Variable eh : Z -> option (resp -> ehres).
 Lemma route_and_call_pre rt st ev st' r :
   route_and_call rt st = (ev, st', r) -> forallb pre_event ev = true.
 Proof.
-  unfold route_and_call. destruct rt as [[h|]|allow|rh h].
+  unfold route_and_call. destruct rt as [[h|]|allow|rh h|j].
   - destruct (run_prog h st) as [st1 r1]. intros H; inversion H; subst. reflexivity.
   - intros H; inversion H; subst. reflexivity.
   - intros H; inversion H; subst. reflexivity.
@@ -66,6 +66,7 @@ Proof.
     + destruct (run_prog h st1) as [st2 r2]. intros H; inversion H; subst.
       destruct (run_hooks_events _ _ _ _ _ _ Hr) as [idx ->].
       simpl. rewrite forallb_app. rewrite forallb_map_tag by reflexivity. reflexivity.
+  - intros H; inversion H; subst. reflexivity.
 Qed.
 
 Lemma handle_pre p ev st o : handle p = (ev, st, o) -> forallb pre_event ev = true.
@@ -470,6 +471,7 @@ Definition wf_routing (rt : routing) : Prop :=
   | R404 (Some h) => wf_hprog h
   | R405 allow => Pv allow
   | ROk rh h => Forall wf_hprog rh /\ wf_hprog h
+  | RRaise _ => True
   end.
 Definition wf_program (p : program) : Prop :=
   Forall wf_hprog (p_before p) /\ Forall wf_hprog (p_after p) /\ wf_routing (p_routing p).
@@ -612,7 +614,7 @@ Proof. apply wf_err500. Qed.
 Lemma route_and_call_ok rt st ev st' r :
   wf_routing rt -> st_ok st -> route_and_call rt st = (ev, st', r) -> st_ok st' /\ wf_res r.
 Proof.
-  unfold route_and_call. destruct rt as [[h|]|allow|rh h]; simpl; intros Hw S H.
+  unfold route_and_call. destruct rt as [[h|]|allow|rh h|j]; simpl; intros Hw S H.
   - destruct (run_prog_ok h st Hw S) as [S1 R1]. destruct (run_prog h st) as [st1 r1].
     inversion H; subst. auto.
   - inversion H; subst. split; [exact S|exact wf_err404].
@@ -624,6 +626,7 @@ Proof.
     + inversion H; subst. split; [exact S1|]. destruct x; exact X1.
     + destruct (run_prog_ok h st1 Hh S1) as [S2 R2]. destruct (run_prog h st1) as [st2 r2].
       inversion H; subst. auto.
+  - inversion H; subst. split; [exact S|exact I].
 Qed.
 
 Lemma Forall_rev' {A} (P : A -> Prop) l : Forall P l -> Forall P (rev l).
